@@ -223,3 +223,26 @@ Definition write_text (foam : bool) (path : str) (existing : option str) (append
       Ok (if foam then foam_to_string_sd s else to_string_sd s))
   | _, _ => Ok (if foam then foam_to_string_plain d' else to_string_plain d')
   end).
+
+(* ---- the file tree as far as DictWriter.write is concerned ------------------------------------------- *)
+(* path -> text.  A write serialises first and touches the target only when serialisation succeeded; in append
+   mode the existing text of the target is read (nothing else is). *)
+Definition world := list (str * str).
+Fixpoint w_get (p : str) (w : world) : option str :=
+  match w with
+  | [] => None
+  | (q, t) :: w' => if str_eqb p q then Some t else w_get p w'
+  end.
+Fixpoint w_set (p : str) (t : str) (w : world) : world :=
+  match w with
+  | [] => [(p, t)]
+  | (q, t0) :: w' => if str_eqb p q then (q, t) :: w' else (q, t0) :: w_set p t w'
+  end.
+Definition writer_write (foam : bool) (w : world) (target : str) (append : bool) (d : list (key * tree))
+  : world * res str :=
+  match write_text foam target (w_get target w) append d with
+  | Ok txt => (w_set target txt w, Ok txt)
+  | Raise e => (w, Raise e)
+  end.
+Definition writer_run (foam : bool) (w : world) (target : str) (ops : list (bool * list (key * tree))) : world :=
+  fold_left (fun w0 (op : bool * list (key * tree)) => fst (writer_write foam w0 target (fst op) (snd op))) ops w.
